@@ -299,7 +299,12 @@ class OctetStringPayloadDecoder(AbstractSimplePayloadDecoder):
                      tagSet=None, length=None, state=None,
                      decodeFun=None, substrateFun=None,
                      **options):
-        if substrateFun:
+        # a constructed fragment of a constructed string is not to be
+        # collected as is, but assembled from its own fragments
+        isNestedFragment = (substrateFun is self.substrateCollector and
+                            tagSet[0].tagFormat != tag.tagFormatSimple)
+
+        if substrateFun and not isNestedFragment:
             asn1Object = self._createComponent(asn1Spec, tagSet, noValue, **options)
 
             for chunk in substrateFun(asn1Object, substrate, length, options):
@@ -338,7 +343,11 @@ class OctetStringPayloadDecoder(AbstractSimplePayloadDecoder):
 
             header += component
 
-        yield self._createComponent(asn1Spec, tagSet, header, **options)
+        if isNestedFragment:
+            yield header
+
+        else:
+            yield self._createComponent(asn1Spec, tagSet, header, **options)
 
     def indefLenValueDecoder(self, substrate, asn1Spec,
                              tagSet=None, length=None, state=None,
